@@ -48,7 +48,8 @@ theorem insertAt_single (S : Schema) (ty : TypeId) (a : Attrs) (ms : Marks) (mid
     Slice.insertAt S ⟨[.elem ty a ms []], 0, 0⟩ 1 mid = .ok (some ⟨[.elem ty a ms mid], 0, 0⟩) := by
   have hf := flatInsert_empty S mid (some ty) (fun t ht => by
     simp only [Option.some.injEq] at ht; subst ht; exact hv)
-  simp only [Slice.insertAt, Nat.add_zero]
+  rw [insertAt_of_le (by simp [Slice.size])]
+  simp only [Slice.insertAtIn, Nat.add_zero]
   unfold insertInto
   rw [if_neg (by omega), if_neg (by simp)]
   simp only [Nat.lt_irrefl, decide_false, Bool.false_and, Bool.or_self, Bool.false_eq_true, if_false,
